@@ -155,6 +155,28 @@ def c14_cases(workdir, quick=True):
                     "status": row["status"], "result": row["result"], "run": 1, "seq": 500, "t": 0})
     finally:
         s.close()
+    # two idle periods in a row that the run ends by itself (retry delays of 6 s, no client event in between): each is
+    # shorter than idle_timeout (10 s), together they are longer -- the deferred release armed in the first period must
+    # stand down, and the second retry must still happen
+    prog = sc.retry_then_stop(6, fail_until=2, retry_max=4)
+    db = os.path.join(str(workdir), "c14_consecutive.db")
+    s = sv.ServerSystem(prog, db_path=db, idle_timeout=10.0)
+    try:
+        s.launch()
+        s.start_handler("h1")
+        s.drain()
+        flags = _engine_flags(s)
+        released_at, before = _watch_release(s, "h1", 30000)
+        s.run_to_end(90000)
+        row = s.handler_row("h1")
+        out.append({"e": "case", "via": "consecutive_idle_periods", "kind": "retry", "idle_timeout_ms": 10000, "delay_ms": 6000,
+                    "released": released_at >= 0, "released_at": released_at,
+                    "timer_pending_at_release": bool(before["pending_retry"] or flags["pending_retry"]),
+                    "idle_announced_with_timer_pending": True,
+                    "retried": any(r["e"] == "step_start" and r["retry"] >= 2 for r in s.trace), "timed_out": False,
+                    "status": row["status"], "result": row["result"], "run": 1, "seq": 501, "t": 0})
+    finally:
+        s.close()
     return out
 
 
@@ -196,6 +218,24 @@ def c15_cases(workdir, quick=True):
                                 "run": 1, "seq": n, "t": 0})
                 finally:
                     s.close()
+    # the FIRST write of the handler row fails transiently: start_workflow sits in its back-off while whatever has already
+    # been scheduled runs; the row must still end up matching the run's outcome
+    for (label, prog, expect) in (("result", sc.pipeline(timeout=50), "completed"),
+                                  ("step_failure", sc.pipeline(fail_until=99, timeout=50), "failed")):
+        db = os.path.join(str(workdir), "c15_init_%s.db" % label)
+        s = sv.ServerSystem(prog, db_path=db, idle_timeout=1000.0, initial_faults=1, backoff=(0.5, 3.0))
+        try:
+            s.launch()
+            s.start_handler("h1")
+            s.run_to_end(40000)
+            writes = [{"status": r["status"], "ok": bool(r["ok"])} for r in s.trace if r["e"] == "status_write"]
+            row = s.handler_row("h1")
+            out.append({"e": "case", "label": label + "/initial_write_fault", "expect": expect, "faults": 1, "store": "sqlite",
+                        "status": row["status"], "has_result": row["has_result"], "result": row["result"],
+                        "has_error": row["error"] != "", "run_ended": s.live_loops("h1") == 0, "writes": writes,
+                        "run": 1, "seq": 900, "t": 0})
+        finally:
+            s.close()
     # a later run in the SAME server process: earlier transient failures must not have used up its retry budget
     db = os.path.join(str(workdir), "c15_second.db")
     s = sv.ServerSystem(sc.pipeline(timeout=50), db_path=db, idle_timeout=1000.0, status_faults=2, backoff=(0.5, 3.0))
